@@ -420,9 +420,12 @@ class Consumer(object):
         self._stopping = True
         # Keep track of state for debugging
         self._state = "stopping"
-        # Are we waiting for a request to come back?
+        # Are we waiting for a request to come back? (It may also have fired
+        # already, with its reply parked until the processor is done: forget
+        # it, or a restarted consumer would wait for it forever.)
         if self._request_d:
-            self._request_d.cancel()
+            request_d, self._request_d = self._request_d, None
+            request_d.cancel()
         # Are we working our way through a block of messages?
         if self._msg_block_d:
             # Need to add a cancel handler...
